@@ -96,6 +96,12 @@ func legacyMinterConfig(mp mintertypes.Params) mintertypes.MinterConfig {
 	return legacy
 }
 
+// c16SolvencyOnly: runC16 stops after the upgrade and checks pool solvency only (TestC05Upgrade).
+var c16SolvencyOnly bool
+
+// c16ParamsOnly: runC16 stops after the upgrade and checks the stored parameters only (TestC13Upgrade).
+var c16ParamsOnly bool
+
 func TestC16(t *testing.T) {
 	st := StatsFor("C16")
 	rapid.Check(t, func(t *rapid.T) {
@@ -125,7 +131,8 @@ func runC16(t *rapid.T, st *Stats, v *VestWorld, viaHandler bool, determinismOnl
 		toUc4e := sdk.NewInt(1_000_000)
 		sumNew := sdk.NewInt(72_000_000).Mul(toUc4e)
 		classes := map[string]bool{}
-		vestingDenom := []string{Denom, "uatom"}[rapid.IntRange(0, 1).Draw(t, "vdenom")]
+		// (the vesting denomination may be an IBC voucher: bank denominations are case sensitive)
+		vestingDenom := []string{Denom, "uatom", "ibc/27394FB092D2ECCD56123C74F36E4C1F926001CEADA9CA97EA622B25F41E5EB2"}[rapid.IntRange(0, 2).Draw(t, "vdenom")]
 
 		// ---------- vesting types (same format before and after)
 		typesPre := map[string]vestingtypes.VestingType{}
@@ -309,8 +316,15 @@ func runC16(t *rapid.T, st *Stats, v *VestWorld, viaHandler bool, determinismOnl
 		o := integratedOpts()
 		o.AllowMainAlias = false
 		dcfg := GenDistrCfg(t, o)
+		invalidLegacyDistributor := !viaHandler && rapid.IntRange(0, 5).Draw(t, "invalidLegacyDistributor") == 0
+		if invalidLegacyDistributor {
+			// a configuration the previous release accepted and the current rules reject: the main account named by its address
+			dcfg.Subs[0].Primary = DAcc{Type: tBase, Id: ModuleAddr(distrtypes.DistributorMainAccount).String()}
+			classes["invalid_legacy_distributor"] = true
+		}
 		dparams := dcfg.Build()
 		ssD.Set(ctx, distrtypes.KeySubDistributors, dparams.SubDistributors)
+		distrParamsPre := ctx.KVStore(app.GetKey(distrtypes.StoreKey)).Get(distrtypes.ParamsKey)
 
 		// ---------- observe pre-state
 		accountsPre := allAccounts(v)
@@ -387,6 +401,54 @@ func runC16(t *rapid.T, st *Stats, v *VestWorld, viaHandler bool, determinismOnl
 			return
 		}
 		errM, errD := runUpgrade(ctx)
+		if c16ParamsOnly {
+			// C13 across the upgrade: whatever the legacy configuration was, parameters that the migration stored validate
+			if bz := ctx.KVStore(app.GetKey(distrtypes.StoreKey)).Get(distrtypes.ParamsKey); len(bz) > 0 && string(bz) != string(distrParamsPre) {
+				if err := app.CfedistributorKeeper.GetParams(ctx).Validate(); err != nil {
+					t.Fatalf("the upgrade (distributor migration result: %v) stored distributor parameters that do not validate: %v\nlegacy configuration: %s", errD, err, jsonStr(dcfg))
+				}
+			}
+			if bz := ctx.KVStore(app.GetKey(mintertypes.StoreKey)).Get(mintertypes.ParamsKey); len(bz) > 0 && string(bz) != string(minterParamsPre) {
+				if err := app.CfeminterKeeper.GetParams(ctx).Validate(); err != nil {
+					t.Fatalf("the upgrade (minter migration result: %v) stored minter parameters that do not validate: %v\nlegacy configuration: %s", errM, err, jsonStr(mcfg))
+				}
+			}
+			if err := sdk.ValidateDenom(app.CfevestingKeeper.GetParams(ctx).Denom); err != nil {
+				t.Fatalf("the upgrade stored a vesting denomination that does not validate: %v", err)
+			}
+			classes["parameters_across_the_upgrade"] = true
+			st.Case(invalidLegacyMinter || invalidLegacyDistributor || len(owners) >= 2, map[string]interface{}{"minter": mcfg, "distributor": dcfg}, classList(classes)...)
+			return
+		}
+		if c16SolvencyOnly {
+			// C05 across the upgrade: whatever the upgrade did to the pools, the module account backs them exactly
+			denom := app.CfevestingKeeper.GetParams(ctx).Denom
+			sum, n := sdk.ZeroInt(), 0
+			for _, avp := range app.CfevestingKeeper.GetAllAccountVestingPools(ctx) {
+				for _, p := range avp.VestingPools {
+					if p.Withdrawn.IsNegative() || p.Sent.IsNegative() || p.Withdrawn.Add(p.Sent).GT(p.InitiallyLocked) {
+						t.Fatalf("after the v1.2.0 upgrade pool %s/%s has initially locked %s, sent %s, withdrawn %s", avp.Owner, p.Name, p.InitiallyLocked, p.Sent, p.Withdrawn)
+					}
+					sum = sum.Add(p.InitiallyLocked).Sub(p.Sent).Sub(p.Withdrawn)
+					n++
+				}
+			}
+			if mb := app.BankKeeper.GetBalance(ctx, ModuleAddr(vestingtypes.ModuleName), denom).Amount; !mb.Equal(sum) {
+				t.Fatalf("after the v1.2.0 upgrade (handler=%v) the vesting module account holds %s%s, the %d pools account for %s\npools before: %v", viaHandler, mb, denom, n, sum, pre)
+			}
+			withdrawnBefore := false
+			for _, p := range pre[c16Owner] {
+				if p.Name == "Validators pool" && p.W.IsPositive() {
+					withdrawnBefore = true
+				}
+			}
+			if withdrawnBefore {
+				classes["validators_pool_with_withdrawals"] = true
+			}
+			classes["solvency_across_the_upgrade"] = true
+			st.Case(n > 0, map[string]interface{}{"owners": owners, "pre": fmt.Sprint(pre)}, classList(classes)...)
+			return
+		}
 
 		// ---------- expected post-state
 		expect := map[string][]c16Pool{}
@@ -562,15 +624,24 @@ func runC16(t *rapid.T, st *Stats, v *VestWorld, viaHandler bool, determinismOnl
 				t.Fatalf("migrated minter parameters differ from the legacy configuration:\n got  %s\n want %s", minterParamsJSON(app, np), minterParamsJSON(app, want))
 			}
 		}
-		if errD != nil {
-			t.Fatalf("distributor parameter migration rejected valid legacy parameters: %v", errD)
-		}
-		gp := app.CfedistributorKeeper.GetParams(ctx)
-		if err := gp.Validate(); err != nil {
-			t.Fatalf("migrated distributor parameters do not validate: %v", err)
-		}
-		if string(cdc.MustMarshalJSON(&gp)) != string(cdc.MustMarshalJSON(&dparams)) {
-			t.Fatalf("migrated distributor parameters differ from the legacy ones")
+		if invalidLegacyDistributor {
+			if errD == nil {
+				t.Fatalf("distributor parameter migration accepted legacy parameters that validation rejects: %s", jsonStr(dcfg))
+			}
+			if post := ctx.KVStore(app.GetKey(distrtypes.StoreKey)).Get(distrtypes.ParamsKey); string(post) != string(distrParamsPre) {
+				t.Fatalf("distributor parameter migration failed but wrote parameters")
+			}
+		} else {
+			if errD != nil {
+				t.Fatalf("distributor parameter migration rejected valid legacy parameters: %v", errD)
+			}
+			gp := app.CfedistributorKeeper.GetParams(ctx)
+			if err := gp.Validate(); err != nil {
+				t.Fatalf("migrated distributor parameters do not validate: %v", err)
+			}
+			if string(cdc.MustMarshalJSON(&gp)) != string(cdc.MustMarshalJSON(&dparams)) {
+				t.Fatalf("migrated distributor parameters differ from the legacy ones")
+			}
 		}
 
 		nt := ownerPresent && len(owners) >= 2
